@@ -346,8 +346,10 @@ class Ctx:
             "samples": self.samples or [{"note": "no sample recorded"}],
             "tlc_runs": self.tlc_runs,
         }
-        if self.exhaustive is not None:
+        if isinstance(self.exhaustive, bool):
             cov["exhaustive"] = self.exhaustive
+        elif self.exhaustive is not None:
+            cov["exhaustive_scope"] = self.exhaustive   # a description of what was enumerated completely
         if self.notes:
             cov["harness_counters"] = self.notes
         ev = {
